@@ -42,17 +42,19 @@ const vsyncPath = modPath + "/zzverif/vsync"
 const vatomicPath = modPath + "/zzverif/vatomic"
 
 type Job struct {
-	Dir      string            `json:"dir"`
-	Pkg      string            `json:"pkg"`
-	Files    []string          `json:"files"`
-	Sync     bool              `json:"sync"`
-	MapRange bool              `json:"maprange"`
-	Rules    []string          `json:"rules"`
-	Imports  map[string]string `json:"imports"`
-	As       string            `json:"as"`
-	AsDir    string            `json:"as_dir"`
-	PkgName  string            `json:"pkgname"` // rename the package clause (virtual copies)
-	RulesOnly bool             `json:"rules_only"` // apply only the constant rules (no sync/channel rewriting)
+	Dir      string   `json:"dir"`
+	Pkg      string   `json:"pkg"`
+	Files    []string `json:"files"`
+	Sync     bool     `json:"sync"`
+	MapRange bool     `json:"maprange"`
+	// MapRangeOnly, when non-empty, restricts the map-range rewrite to ranges over these expressions (source text)
+	MapRangeOnly []string          `json:"maprange_only"`
+	Rules        []string          `json:"rules"`
+	Imports      map[string]string `json:"imports"`
+	As           string            `json:"as"`
+	AsDir        string            `json:"as_dir"`
+	PkgName      string            `json:"pkgname"`    // rename the package clause (virtual copies)
+	RulesOnly    bool              `json:"rules_only"` // apply only the constant rules (no sync/channel rewriting)
 }
 
 type Spec struct {
@@ -783,7 +785,7 @@ func (r *rewriter) rw(n ast.Node) ast.Node {
 			fs.Body.List = append(fs.Body.List, s.Body.List...)
 			return fs
 		}
-		if rangeIsMap && r.job.MapRange {
+		if rangeIsMap && r.job.MapRange && r.mapRangeWanted(r.src(s.X)) {
 			r.usedV = true
 			r.count("rangemap")
 			if s.Tok == token.ASSIGN {
@@ -811,6 +813,19 @@ func (r *rewriter) rw(n ast.Node) ast.Node {
 		}
 	}
 	return n
+}
+
+func (r *rewriter) mapRangeWanted(expr string) bool {
+	if len(r.job.MapRangeOnly) == 0 {
+		return true
+	}
+	for _, e := range r.job.MapRangeOnly {
+		if e == expr {
+			return true
+		}
+	}
+	r.count("rangemap-left-alone")
+	return false
 }
 
 func (r *rewriter) rwSelect(s *ast.SelectStmt) ast.Node {
